@@ -10,6 +10,8 @@ import (
 	"reflect"
 	"strings"
 	"time"
+	"unicode"
+	"unsafe"
 )
 
 // A bank of declared types: named types, embedding, recursion, marshalers — things reflect.StructOf cannot make.
@@ -61,6 +63,29 @@ type EmbedUnexported struct {
 	unexportedInner // embedded unexported struct: its exported fields are promoted
 	E               int
 }
+// an embedded struct tagged json:"-": encoding/json ignores the field and everything it promotes. NOT part of the plain bank
+// (without a TypeSchemas override For flattens it: the class of known finding D16, H_D16 "embedded fields are untagged");
+// C16 uses it with an override for Inner only.
+type EmbedDash struct {
+	Inner `json:"-"`
+	F     int `json:"f"`
+}
+
+// two DIFFERENT declared struct types with the same name and the same package path: function-local declarations
+func localItemA() reflect.Type {
+	type Item struct {
+		N int8 `json:"n"`
+	}
+	return reflect.TypeFor[Item]()
+}
+func localItemB() reflect.Type {
+	type Item struct {
+		N string `json:"n"`
+		M []int  `json:"m,omitempty"`
+	}
+	return reflect.TypeFor[Item]()
+}
+
 type Rec struct {
 	Next *Rec `json:"next"`
 	V    int
@@ -226,6 +251,17 @@ var bank = map[string]reflect.Type{
 	"PtrInner": reflect.TypeFor[PtrInner](), "HoldsPtrs": reflect.TypeFor[HoldsPtrs](),
 	"Handler": reflect.TypeFor[Handler](), "IntKeyed": reflect.TypeFor[IntKeyed](), "MyChan": reflect.TypeFor[MyChan](),
 	"TwoHandlers": reflect.TypeFor[TwoHandlers](),
+	"unexportedInner": reflect.TypeFor[unexportedInner](), "EmbedDash": reflect.TypeFor[EmbedDash](),
+	"LocalItemA": localItemA(), "LocalItemB": localItemB(),
+}
+
+// settable: v itself, or — for an unexported EMBEDDED struct field of an addressable struct, which reflect refuses to set although
+// encoding/json emits the exported fields it promotes — the same memory as a settable Value.
+func settable(v reflect.Value, f reflect.StructField) reflect.Value {
+	if !v.CanSet() && f.Anonymous && !f.IsExported() && f.Type.Kind() == reflect.Struct && v.CanAddr() {
+		return reflect.NewAt(f.Type, unsafe.Pointer(v.UnsafeAddr())).Elem()
+	}
+	return v
 }
 
 type tdesc struct {
@@ -408,17 +444,18 @@ func genValue(v reflect.Value, rng *rand.Rand, mode int, depth int) {
 			if !f.IsExported() && !f.Anonymous {
 				continue
 			}
-			if !v.Field(i).CanSet() {
+			fv := settable(v.Field(i), f)
+			if !fv.CanSet() {
 				continue
 			}
 			if f.Anonymous && f.Type.Kind() == reflect.Pointer {
 				// embedded pointers must be non-nil (domain of C04)
 				p := reflect.New(f.Type.Elem())
 				genValue(p.Elem(), rng, mode, depth+1)
-				v.Field(i).Set(p)
+				fv.Set(p)
 				continue
 			}
-			genValue(v.Field(i), rng, mode, depth+1)
+			genValue(fv, rng, mode, depth+1)
 		}
 	}
 }
@@ -514,7 +551,7 @@ func validJSONName(name string) bool {
 	for _, c := range name {
 		switch {
 		case strings.ContainsRune("!#$%&()*+-./:;<=>?@[]^_{|}~ ", c):
-		case c >= '0' && c <= '9', c >= 'a' && c <= 'z', c >= 'A' && c <= 'Z', c > 127:
+		case unicode.IsLetter(c), unicode.IsDigit(c): // encoding/json's isValidTag
 		default:
 			return false
 		}
